@@ -88,6 +88,12 @@ def stepEvent (run : Run) (ev : String) : EvOut :=
     | some snr, some v => doStep run items (.radio (.rx snr v)) "up=-"
     | _, _ => .bad
   | ["ntimeout"] => doStep run items .timeout "up=-"
+  | ["sess", da, up, down] =>
+    match parseNat? da, parseNat? up, optNat? down with
+    | some da, some up, some down =>
+      let s : Session := { Session.new da 1 2 with fcntUp := up, fcntDown := down }
+      .out "ok" { run with r := { run.r with m := { run.r.m with st := .joined s } } }
+    | _, _, _ => .bad
   | ["adr", b] =>
     match Driver.parseBool? b with
     | some b => .out "ok" { run with r := { run.r with m := macSetAdr run.r.m b } }
